@@ -10,6 +10,10 @@ Transcribed by hand from
 * docs/markdown/Wrap-dependency-system-manual.md  ([provide]; optional lookups use a provide-fallback only
   when forced or `allow_fallback: true`)
 * docs/markdown/Builtin-options.md      (wrap_mode, force_fallback_for)
+* docs/yaml/functions/dependency.yaml `static` ("it also sets default_library option accordingly on the fallback
+  subproject") and docs/yaml/builtins/meson.yaml override_dependency `static` ("If not specified it is assumed
+  dep_object follows default_library option value"): an override made without static: applies to lookups without
+  static: and to lookups whose static: matches the default_library of the project that made it
 
 It never imports mesonbuild and shares no code with it.  An *answer* is a tuple
 
@@ -30,7 +34,12 @@ Cells left open (and why):
   nofallback, also for optional lookups).  A.9 rule 2 marks this undocumented, so such a cell accepts the
   documented answer or the configured subproject's dependency (version-checked);
 * a lookup after an earlier lookup of the same name *found* something, with different arguments and a
-  documented stateless answer naming another provider.
+  documented stateless answer naming another provider;
+* a lookup with static: whose link relies on the subproject's override (fallback: 'sub', dependency_names) while
+  the override was made for the other library type, or while the default_library the subproject gets is not
+  decided (static: together with a conflicting default_options / -Dsub:default_library: dependency.yaml says the
+  explicit default_options entry wins, the code forces static: - a disagreement about options, left open here);
+* a subproject that overrides the name being configured after another lookup (other static:) already resolved it.
 """
 from __future__ import annotations
 
